@@ -283,6 +283,8 @@ def run(tier, seed):
     par.pmap(work_degenerate, c09.degenerate_gex_tasks(), stats=st, procs=1)
     from props import zoo
     par.pmap(work_zoo, zoo.names(tier), stats=st, chunk=6)
+    from props import delivery as _DL
+    par.pmap(_DL.work, _DL.tasks(tier), extra=(('connections',),), stats=st, chunk=12)
     check_no_dos_without_option(st)
     vcases = []
     for arch, short, plan, rate in H.pick([t for t in tasks if not t[3] and t[0] != 'G'], seed, 20 if tier == 'quick' else 100):
